@@ -34,6 +34,15 @@ def run(ctx):
             for gi in list(range(10)) + [10, 11, 12, 13]:
                 bits = [rng.randrange(2) for _ in range(3)]
                 smp = [mk_sample(rng, s, (MU if b else -MU) + rng.randrange(-2**20, 2**20)) for b in bits]
+                if gi % 2 == 1 and n >= 2:
+                    # mask coefficients exactly half-way between two multiples of 1/2N (the other operand zero there, so that the gate's combination keeps the tie):
+                    # whatever the rounding does with a tie, it does it the same way every time and without touching the generator
+                    a0, b0 = list(smp[0][0]), smp[0][1]; a1, b1 = list(smp[1][0]), smp[1][1]
+                    for i in rng.sample(range(n), min(3, n)):
+                        T = vlib.w32((2 * rng.randrange(2048) + 1) * 2**20)
+                        if s[i]: b0 = vlib.w32(b0 + T - a0[i]); b1 = vlib.w32(b1 - a1[i])
+                        a0[i] = T; a1[i] = 0
+                    smp = [(a0, b0), (a1, b1), smp[2]]
                 pats = [0, 1, 2, 4, 5, 6] if gi < 10 else ([0, 1, 6] if gi in (10, 11, 12) else [0, 1, 2, 3, 4, 5, 6])
                 for pat in pats:
                     # the reference for an aliasing pattern: separate objects holding what the aliased objects hold
